@@ -100,9 +100,10 @@ fn menu(kind: u8, rich: bool) -> Vec<S> {
         }
         1 => v.extend([S::Passed(1), S::Passed(100)]),
         2 => {
-            v.extend([S::Rate(0.005), S::Rate(1.3)]);
+            // incl. rates that coincide with what the mods of the menu imply (1.0 for none / EZ, 1.5 for HR+DT)
+            v.extend([S::Rate(0.005), S::Rate(1.3), S::Rate(1.0), S::Rate(1.5)]);
             if rich {
-                v.extend([S::Rate(1000.0), S::Rate(-1.0)]);
+                v.extend([S::Rate(1000.0), S::Rate(-1.0), S::Rate(0.75)]);
             }
         }
         3 => {
@@ -256,22 +257,23 @@ fn main() {
         })
         .collect();
 
-    // all ordered sequences of <= 3 distinct kinds
+    // all ordered sequences of <= 3 (thorough: 4) distinct kinds
+    let max_len = if rich { 4 } else { 3 };
     let mut kind_seqs: Vec<Vec<u8>> = vec![vec![]];
-    for a in 0..9u8 {
-        kind_seqs.push(vec![a]);
-        for b in 0..9u8 {
-            if b == a {
-                continue;
-            }
-            kind_seqs.push(vec![a, b]);
-            for c in 0..9u8 {
-                if c == a || c == b {
-                    continue;
+    let mut frontier: Vec<Vec<u8>> = vec![vec![]];
+    for _ in 0..max_len {
+        let mut next = Vec::new();
+        for h in &frontier {
+            for k in 0..9u8 {
+                if !h.contains(&k) {
+                    let mut n = h.clone();
+                    n.push(k);
+                    next.push(n);
                 }
-                kind_seqs.push(vec![a, b, c]);
             }
         }
+        kind_seqs.extend(next.iter().cloned());
+        frontier = next;
     }
     let menus: Vec<Vec<S>> = (0..9u8).map(|k| menu(k, rich)).collect();
     for (mode, spec, map, attrs) in &maps {
